@@ -139,3 +139,19 @@ PROPS['C12'] = dict(
     modelled='bufio.Writer, fmt.Fprintf/Fprintln as one Write call, io.Writer contract 0 <= n <= len(p)',
     assumptions=['each implementation call runs under a 3 s wall-clock budget; exceeding it is reported as TIMEOUT'],
 )
+
+PROPS['C08'] = dict(
+    theorem='C08_shape, C08_value, C08_g_rule, C08_width, C08_bad_verb, C08_string_is_g (Properties/C08.v)',
+    functional=True,
+    level_text='Theorems for every precision/exponent/digit list: the streaming formatter emits exactly the first sigDigits digits (zero padded where the verb demands an exact '
+               'count) with the point after `exponent` digits (0.000ddd form for exponents <= 0), and the text parsed back as a decimal is exactly the number truncated toward zero; '
+               'the %g exponent rule, width padding (never truncating), String = %g, bad verbs. Differential run of fmt.Sprintf over a directive grid (verbs incl. bad ones, '
+               'precision absent/0/around exponent and digit count, widths, flags), String and v3 Exact on zero, finite and infinite Numbers of all three versions.',
+    level_note='fmt\'s parsing of the directive and its "%+03d" are modelled (fmt_exp); the model starts at (verb, precision, width, minus flag). Flags + # 0 space are generated and '
+               'must be ignored. |exponent| is kept materialisable (<= 1000) as the property\'s quantifier does.',
+    rule='cases: Numbers zero / finite (1..20 digits, with inner zero runs) / repeating infinite (incl. 999...), optional WithSignificant, exponents around -3/6/16 and +-1000, verbs '
+         'f F e E g G v and bad verbs (d s x q z U, non-ASCII), precision absent or from {0,1,2,3,6,15,16,17,40, e-1,e,e+1, L-1,L,L+1,L-e,L-e+1}, width absent or {0..30}, flags. '
+         'Non-trivial: scientific vs fixed output, width or precision present; distinct = distinct (version, op, args).',
+    modelled='fmt.State (Precision, Width, Flag), fmt "%+03d", strings.Builder, bufio in the formatter (never fails into a Builder)',
+    assumptions=[],
+)
